@@ -92,6 +92,7 @@ class Files:
 
     def get(self, ext, n):
         key = (ext, n)
+        cell = n != 6 or ext in ("lammpstrj", "dtr")   # the 6-frame files carry no unit cell (these two writers refuse that)
         if key not in self.cache:
             if ext == "arc":
                 import mdtraj as md
@@ -99,7 +100,7 @@ class Files:
                     ref = np.asarray(f.read()[0])
                 self.cache[key] = (ARC, ref.shape[1], ref)
             else:
-                t, top, paths = tf.write_files(self.dir, n, [ext])
+                t, top, paths = tf.write_files(self.dir, n, [ext], cell=cell)
                 self.cache[key] = (paths[ext], t.n_atoms, None)
         return self.cache[key]
 
@@ -196,8 +197,8 @@ def run(ctx):
         ctx.drift_for(m)
     files = Files(ctx)
     rng = ctx.rng
-    sizes = [7] if ctx.quick else [7, 12, 1]
-    n_random = ctx.n(60, 600)
+    sizes = [7, 6] if ctx.quick else [7, 6, 12, 1]
+    n_random = ctx.n(40, 400)
     jobs = []   # (ext, n, ops, atom_idx, handles)
     corpus = [
         [("ra",), ("t",)], [("r", 3), ("ra",), ("ra",), ("t",)], [("s", 3), ("ra",), ("t",)], [("r", 4), ("ra",), ("t",)],
